@@ -8,10 +8,11 @@ reg(Prop(
          '(28 / 784 boxes) is judged against the explicit set of lattice points in [-7,7]^N (std::bitset): points<T,N> = '
          'one box x every lattice point (contains_point, size/pos/max for three ways of building the box, corner_points); '
          'pairs<T,N> = one row (box a) x every box b (intersection incl. null box, intersects, contains(a,b), '
-         'extend_bounding_box(a,b); N=2 quick: every 4th row with a seed dependent offset, thorough: all 614656 ordered pairs); '
+         'extend_bounding_box(a,b); all 784 / 614656 ordered pairs in both tiers); '
          'resize<T,N> = one box x every vector in [-3,3]^N ([0,3]^N unsigned) for shrink/stretch_absolute. N=3: seeded random '
-         'boxes with corners in [-3,3] on the lattice [-6,6]^3 (random3) and boxes with coordinates up to 10^6 judged on the '
-         '512 face-adjacent candidate points and the extreme points of the operands (random3-wide). evaluations counts judged '
+         'boxes with corners in [-3,3] on the lattice [-6,6]^3 (random3; 12000 / 800000 (a,b,v) triples per type in quick / '
+         'thorough) and boxes with coordinates up to 10^6 judged on the 512 face-adjacent candidate points and the extreme '
+         'points of the operands (random3-wide; 4000 / 200000 per type). evaluations counts judged '
          'library calls; a case for the distinct count is a (type,N,box) for points/resize, an ordered pair of non-empty boxes '
          'for pairs, a (a,b,v) triple for random3.',
     assumptions=COMMON_ASSUMPTIONS + [
@@ -26,6 +27,6 @@ reg(Prop(
     exhaustive_spaces=[
         'N=1: all 28 boxes with corners in [-3,3] x all 15 lattice points, all 784 ordered pairs, all 7 resize values (int, long; unsigned on [0,6])',
         'N=2: all 784 boxes x all 225 lattice points and x all 49 resize vectors (int, long; unsigned on [0,6]^2)',
-        'thorough: N=2 all 614656 ordered pairs of boxes for int, long, unsigned',
+        'N=2: all 614656 ordered pairs of boxes for int, long, unsigned (both tiers)',
     ],
 ))
